@@ -42,6 +42,17 @@ pub fn make_response(code: u16, variant: &str) -> Response {
         "ct" => Response::text(code, "hi").with_header("content-type", AsciiString::try_from("x/y").unwrap()),
         "te" => Response::new(code).with_header("transfer-encoding", AsciiString::try_from("chunked").unwrap()),
         "h" => Response::new(code).with_header("x-a", AsciiString::try_from("b c").unwrap()),
+        // body-source faults after the head is on the wire: a file that cannot be opened, and a
+        // file shorter than its declared length
+        "fm" => Response::new(code).with_body(servlin::ResponseBody::File(
+            std::path::PathBuf::from("/nonexistent-file-servlin-verif"),
+            10,
+        )),
+        "fs" => {
+            let p = std::env::temp_dir().join(format!("servlin-verif-short-{}", std::process::id()));
+            std::fs::write(&p, b"abc").unwrap();
+            Response::new(code).with_body(servlin::ResponseBody::File(p, 10))
+        }
         _ => panic!("bad response variant"),
     }
 }
